@@ -37,6 +37,10 @@ checks = {
    "Fertilisation, tillage, irrigation, sowing, harvest: each scheduled action inside the period appears exactly once, in order, on its due day; pre-start actions ignored; irrigation water and N enter that day's infiltration / top layer; fertiliser pools change by the table amounts; 20% of cases with automatic management switches."),
  "C16": ("simmon", "exploration", "3 C16", "runtime monitoring: sowing / harvest days from the management event log and every automatic irrigation / N application observed at the probes are checked against the generated rotation and automatic-management table",
    "Rotation order, crop code and harvest year of every crop record; fixed dates hit exactly; automatic sowing inside its window and after the previous harvest, harvest not after the latest date, irrigation only in the stage window and not above the daily maximum, automatic N >= 0; all 16 switch combinations."),
+ "C13": ("pairmon", "exploration", "3 C13", "runtime monitoring: differential paired runs of the real model on one generated project written in two encodings; result files compared byte for byte",
+   "Eight pair kinds (crop classic/YAML/converter-binary YAML, soil, rotation, measurement txt/CSV, weather layouts 0/1/2, date formats); every shipped annual main crop file covered; 12 significant digits of daily state compared."),
+ "C18": ("pairmon", "exploration", "3 C18", "runtime monitoring: differential paired runs of the real model, override on the batch line vs the same edit in a copied parameter folder; result files compared byte for byte",
+   "Every overridable base / per-stage / per-organ parameter x every shipped annual main crop file; valid values: override == file edit; out-of-range value or index: run == run without overrides."),
 }
 
 not_applicable = {
@@ -45,8 +49,6 @@ not_applicable = {
 pending = {  # not yet built: listed as not claimed until their check exists
  "C03": "check under construction (batch/race engine)",
  "C11": "check under construction",
- "C13": "check under construction",
- "C18": "check under construction",
 }
 
 def main():
@@ -60,6 +62,8 @@ def main():
         "kind_free_text": "in-process monitors on probes of the real day loop, child worker processes, seeded scenario generator"},
        {"name": "fnmon", "path": "harness/", "serves_properties": sorted(k for k,v in checks.items() if "fnmon" in v[0] or k in ("C20",)),
         "kind_free_text": "dense / exhaustive execution of real public functions and real binaries against independent reference oracles, sharded over child processes"},
+       {"name": "pairmon", "path": "harness/", "serves_properties": sorted(k for k,v in checks.items() if "pairmon" in v[0]),
+        "kind_free_text": "differential paired runs of the real model (two encodings of one content / override vs file edit), byte comparison of result files"},
      ],
      "checks": [],
      "notes": "Runtime monitoring only. Exit 0 held / 1 violation / 2 inconclusive. known_findings.json lists repaired (fixed) and open findings.",
